@@ -587,6 +587,45 @@ theorem package_partial (b : Backend) (mds : List Inject) (hdrCalls : Bool)
     simp only [hm, List.contains_eq_mem, decide_eq_true_eq] at hh'
     exact includes_of_called Gen.cfg e v h1 f hf r hk _ hh'
 
+/-- **The header is reachable whatever else the query uses.** For every expression in scope that
+calls a function, every list of include requests made before (`pre`) and after (`post`) the
+expression's own — `math.h` of the built-in `DeltaR`, the `include_files` of user C++ functions in C or
+C++ spelling, headers of collections — and any `inject_code` include lists: every rendered C++ file
+of the model's package that calls a math function sees `cmath` (the header that declares `std::f`;
+`math.h` does not count). -/
+theorem package_companions_partial (b : Backend) (mds : List Inject) (hdrCalls : Bool)
+    (hh : hdrCalls = true → "cmath" ∈ headerIncsOf mds) (pre post : List String)
+    (e : PExpr) (hs : Scoped Gen.cfg e = true) (hcall : calledNames e ≠ []) :
+    ∃ v, tr Gen.cfg e = .ok v ∧ PackageSpec (packageFiles b (withCompanions pre v.incs post) mds hdrCalls) = true := by
+  obtain ⟨v, h1, _⟩ := scoped_faithful Gen.cfg cfg_ok e hs
+  refine ⟨v, (tr_iff _ _ _).2 h1, package_spec b _ mds hdrCalls ?_ hh⟩
+  obtain ⟨f, hf⟩ := List.exists_mem_of_ne_nil _ hcall
+  obtain ⟨r, hk, hsome, hmean, _⟩ := scoped_calls Gen.cfg e hs f hf
+  have hr : r ∈ Gen.table := findKnown_mem hk
+  have hh' := header r hr
+  unfold rowHeader at hh'
+  cases hm : meaningCpp r.cpp with
+  | none => simp [hm] at hh'
+  | some m =>
+    simp only [hm, List.contains_eq_mem, decide_eq_true_eq] at hh'
+    have hv : "cmath" ∈ v.incs := includes_of_called Gen.cfg e v h1 f hf r hk _ hh'
+    unfold withCompanions
+    exact mem_mergeIncs.2 (Or.inl (mem_mergeIncs.2 (Or.inr hv)))
+
+/-- The order of the requests is immaterial to what is in the list: nothing requested is lost. -/
+theorem companions_keep_all (pre qv post : List String) (i : String) :
+    i ∈ withCompanions pre qv post ↔ i ∈ pre ∨ i ∈ qv ∨ i ∈ post := by
+  unfold withCompanions
+  simp [mem_mergeIncs, or_assoc]
+
+/-- The clause discriminates: had `add_include` treated `math.h` and `cmath` as one path, the query
+`sin(DeltaR(…))` (requests `TVector2.h`, `math.h`, then `cmath`) would lose `cmath`, and the rendered
+CMS file would fail `PackageSpec`; in the function-first order it would not. -/
+theorem companions_discriminates :
+    PackageSpec (packageFiles .cmsAod (mergeAliased [("math.h", "cmath"), ("cmath", "math.h")] [] ["TVector2.h", "math.h", "cmath"]) [] false) = false ∧
+    PackageSpec (packageFiles .cmsAod (mergeAliased [("math.h", "cmath"), ("cmath", "math.h")] [] ["cmath", "TVector2.h", "math.h"]) [] false) = true ∧
+    PackageSpec (packageFiles .cmsAod (withCompanions ["TVector2.h", "math.h"] ["cmath"] []) [] false) = true := by decide
+
 /-- A documented expression is never refused with "Do not know how to call" one of the documented
 functions, and no documented name makes the resolver raise. -/
 theorem documented_never_refused (e : PExpr) (f : String) (hf : f ∈ Gen.readmeFunctions) :
